@@ -2,6 +2,7 @@
 package rules
 
 import (
+	"fmt"
 	"go/token"
 	"go/types"
 	"sort"
@@ -138,3 +139,102 @@ func fnName(f *ssa.Function) string {
 }
 
 type typesFunc = types.Func
+
+// indexCandidates returns the non-constant values used as element indices in f (IndexAddr,
+// Index): the loop variables as the code actually uses them, whatever the loop form (a range
+// loop indexes with phi+1, a counted loop with the phi itself).
+func indexCandidates(f *ssa.Function) []ssa.Value {
+	seen := map[ssa.Value]bool{}
+	var out []ssa.Value
+	add := func(v ssa.Value) {
+		v = eng.StripConv(v)
+		if _, isC := v.(*ssa.Const); isC || seen[v] {
+			return
+		}
+		seen[v] = true
+		out = append(out, v)
+	}
+	eng.Instrs(f, func(in ssa.Instruction) {
+		switch x := in.(type) {
+		case *ssa.IndexAddr:
+			add(x.Index)
+		case *ssa.Index:
+			add(x.Index)
+		}
+	})
+	return out
+}
+
+// sliceBounds renders the bounds of a slice expression: "lo:hi" for constant bounds, or
+// "ai+b:ci+d" over an element index i used in f (with a != 0); iv is that index.
+func sliceBounds(f *ssa.Function, sl *ssa.Slice) (s string, iv ssa.Value, ok bool) {
+	lo, isLo := eng.ConstInt(sl.Low)
+	hi, isHi := eng.ConstInt(sl.High)
+	if sl.Low == nil {
+		lo, isLo = 0, true
+	}
+	if isLo && isHi {
+		return fmt.Sprintf("%d:%d", lo, hi), nil, true
+	}
+	for _, cand := range indexCandidates(f) {
+		la, lb, ok1 := affine(sl.Low, cand, 0)
+		ha, hb, ok2 := affine(sl.High, cand, 0)
+		if ok1 && ok2 && la != 0 {
+			return fmt.Sprintf("%di+%d:%di+%d", la, lb, ha, hb), cand, true
+		}
+	}
+	return "", nil, false
+}
+
+// isCallNamed: in is a call (static or interface) of a method/function with this name.
+func isCallNamed(in ssa.Instruction, name string) bool {
+	ci, ok := in.(ssa.CallInstruction)
+	if !ok {
+		return false
+	}
+	obj := eng.CalleeObj(ci.Common())
+	return obj != nil && obj.Name() == name
+}
+
+// resultSite is one way result #ri of a function gets its value: a return of that value, or
+// a phi edge that selects it.
+type resultSite struct {
+	Val     ssa.Value
+	Guarded func(p eng.Pred) bool // every path selecting this value passes an edge establishing p
+}
+
+// resultSites enumerates the selections of result #ri (phis resolved up to three levels).
+func resultSites(f *ssa.Function, ri int) []resultSite {
+	var out []resultSite
+	entry := f.Blocks[0].Instrs[0]
+	var viaPhi func(phi *ssa.Phi, d int)
+	viaPhi = func(phi *ssa.Phi, d int) {
+		for i, e := range phi.Edges {
+			if inner, ok := e.(*ssa.Phi); ok && d < 3 {
+				viaPhi(inner, d+1)
+				continue
+			}
+			src, dst := phi.Block().Preds[i], phi.Block()
+			out = append(out, resultSite{Val: e, Guarded: func(p eng.Pred) bool {
+				g := eng.GuardedEdge(entry, func(a, b *ssa.BasicBlock) bool { return a == src && b == dst }, p)
+				return g.Guarded && g.Edges > 0
+			}})
+		}
+	}
+	eng.Instrs(f, func(in ssa.Instruction) {
+		ret, ok := in.(*ssa.Return)
+		if !ok || ri >= len(ret.Results) {
+			return
+		}
+		v := ret.Results[ri]
+		if phi, isPhi := v.(*ssa.Phi); isPhi {
+			viaPhi(phi, 0)
+			return
+		}
+		out = append(out, resultSite{Val: v, Guarded: func(p eng.Pred) bool {
+			g := eng.Guarded(ret, p)
+			return g.Guarded && g.Edges > 0
+		}})
+	})
+	return out
+}
